@@ -23,7 +23,7 @@ vars == <<ss, free, assoc, txseq, tok, base, L, h, bad, hist, turns>>
 NoSess == [live |-> FALSE, cp |-> "", node |-> "", aa |-> 0, teid |-> 0, gnb |-> 0, pdrs |-> {}, qfi |-> 0, urrs |-> {}, q |-> <<>>]
 Ev(t) == [t |-> t, peer |-> "", seq |-> 0, node |-> "", cp |-> "", seid |-> "", sref |-> 0, rref |-> 0, ops |-> <<>>, faults |-> <<>>,
           faults2 |-> <<>>, reports |-> <<>>, tt |-> "", tpeer |-> "", tseq |-> 0, raw |-> "", maxrt |-> 0, txseq0 |-> "", tag |-> "",
-          pdr |-> 0, action |-> 0, n |-> 0, base |-> 0, period |-> 0, kreps |-> <<>>]
+          pdr |-> 0, action |-> 0, n |-> 0, base |-> 0, period |-> 0, kreps |-> <<>>, exp |-> <<>>]
 Op(o, kind, id) == [op |-> o, kind |-> kind, id |-> id, urrs |-> <<>>, hasurrs |-> FALSE, ueip |-> FALSE, far |-> 0, meth |-> -1, minfo |-> -1,
                     aa |-> 0, teid |-> 0, gnb |-> 0, qers |-> <<>>, qfi |-> 0, perio |-> FALSE, period |-> 0]
 Dgram(to, mt, seq, seid) == [to |-> to, mt |-> mt, seq |-> seq, hasseid |-> TRUE, seid |-> seid, cause |-> 0, node |-> "", fseid |-> "", rts |-> "",
@@ -34,6 +34,8 @@ ValsOfTok(k) == [tv |-> "tv" \o ToString(k), uv |-> "uv" \o ToString(k), dv |-> 
 Pkt(k) == "pkt" \o ToString(k)
 SeidStr(i) == ToString(i)
 Live == {i \in DOMAIN ss : ss[i].live}
+TRIG_TERMR == 2048
+RepT(u, trig, k) == [urr |-> u, seqn |-> 0, trig |-> trig, vf |-> 7, dur |-> FALSE, vals |-> ValsOfTok(k)]
 
 Queues == FlattenSeq([i \in DOMAIN ss |-> IF ss[i].live THEN [j \in DOMAIN ss[i].q |-> [seid |-> SeidStr(i), pdr |-> j, len |-> Len(ss[i].q[j])]] ELSE <<>>])
 QueuesOf(s2) == FlattenSeq([i \in DOMAIN s2 |-> IF s2[i].live THEN [j \in DOMAIN s2[i].q |-> [seid |-> SeidStr(i), pdr |-> j, len |-> Len(s2[i].q[j])]] ELSE <<>>])
@@ -48,7 +50,7 @@ Commit(e, out, gpdu, mq, pkts, s2) ==
              snap |-> [rx |-> <<>>, tx |-> <<>>, txseq |-> "", free |-> <<>>, live |-> <<>>, nodes |-> <<>>],
              queues |-> QueuesOf(s2), tickers |-> TickersOf(s2), pkts |-> pkts, fatal |-> ""]
       r == StepL2(h, Lx)
-  IN /\ L' = Lx /\ bad' = r.v /\ h' = r.h /\ hist' = Append(hist, e) /\ turns' = turns + 1
+  IN /\ L' = Lx /\ bad' = r.v /\ h' = r.h /\ hist' = Append(hist, [e EXCEPT !.exp = <<ProjL2(Lx)>>]) /\ turns' = turns + 1
 
 \* ------------------------------------------------------------------ sessions
 Assoc(n) ==
@@ -57,7 +59,7 @@ Assoc(n) ==
       gone == {i \in DOMAIN ss : ss[i].live /\ ss[i].node = n}
   IN /\ "assoc" \in Kinds
      /\ ss' = s2 /\ free' = free \o SetToSeq(gone) /\ assoc' = assoc \cup {n}
-     /\ Commit(e, <<Dgram(NodePeer(n), 6, turns + 1, "")>>, <<>>, <<>>, <<>>, s2)
+     /\ Commit(e, <<[Dgram(NodePeer(n), 6, turns + 1, "") EXCEPT !.cause = 1, !.node = "upf", !.hasseid = FALSE]>>, <<>>, <<>>, <<>>, s2)
      /\ UNCHANGED <<txseq, tok, base>>
 
 \* one FAR (id 1) shared by PDR 1 and 2, QER 1 with the QFI, optionally periodic URRs
@@ -80,10 +82,13 @@ Establish(n, aa, gnb, qfi, urrs) ==
 Delete(i) ==
   LET e == [Ev("del") EXCEPT !.peer = "p1", !.seq = turns + 1, !.seid = SeidStr(i), !.sref = 0]
       s2 == [ss EXCEPT ![i] = NoSess]
+      us == SetToSeq({u.id : u \in ss[i].urrs})
+      \* every URR of the session returns its final usage in the Deletion Response (C12)
+      rp == [k \in DOMAIN us |-> RepT(us[k], TRIG_TERMR, tok + k)]
   IN /\ "del" \in Kinds /\ i \in Live
-     /\ ss' = s2 /\ free' = Append(free, i)
-     /\ Commit(e, <<[Dgram("p1", 55, turns + 1, ss[i].cp) EXCEPT !.cause = 1]>>, <<>>, <<>>, <<>>, s2)
-     /\ UNCHANGED <<assoc, txseq, tok, base>>
+     /\ ss' = s2 /\ free' = Append(free, i) /\ tok' = tok + Len(us)
+     /\ Commit(e, <<[Dgram("p1", 55, turns + 1, ss[i].cp) EXCEPT !.cause = 1, !.rpts = rp]>>, <<>>, <<>>, <<>>, s2)
+     /\ UNCHANGED <<assoc, txseq, base>>
 
 \* ------------------------------------------------------------------ buffering
 \* n packets handed up by the kernel for PDR p of session sd (sd may be dead)
@@ -141,9 +146,9 @@ RemoveUrr(i, u) ==
   LET e == [Ev("mod") EXCEPT !.peer = "p1", !.seq = turns + 1, !.seid = SeidStr(i), !.ops = <<Op("remove", "urr", u)>>]
       s2 == [ss EXCEPT ![i].urrs = {x \in @ : x.id # u}]
   IN /\ "rmurr" \in Kinds /\ i \in Live /\ \E x \in ss[i].urrs : x.id = u
-     /\ ss' = s2
-     /\ Commit(e, <<[Dgram("p1", 53, turns + 1, ss[i].cp) EXCEPT !.cause = 1]>>, <<>>, <<>>, <<>>, s2)
-     /\ UNCHANGED <<free, assoc, txseq, tok, base>>
+     /\ ss' = s2 /\ tok' = tok + 1
+     /\ Commit(e, <<[Dgram("p1", 53, turns + 1, ss[i].cp) EXCEPT !.cause = 1, !.rpts = <<RepT(u, TRIG_TERMR, tok + 1)>>]>>, <<>>, <<>>, <<>>, s2)
+     /\ UNCHANGED <<free, assoc, txseq, base>>
 
 \* one REPORT multicast carrying a report for URR u of session sd with reporting-trigger cause c
 KernelReport(sd, u, c) ==
